@@ -99,16 +99,23 @@ theorem SWk_dispatch (c : Cfg) (s : State) (Z : List (Info × Nat)) (ex : Option
 /-- `_try_put_index` (iterable): at most one new entry, the deque of main snapshots only grows. -/
 theorem SWk_tryPut (c : Cfg) (s : State) (Z : List (Info × Nat)) (ex : Option Nat) (k : Nat)
     (hit : c.iterable = true) (h : SWk c s Z ex k) (hfree : cntZ ex Z + 1 ≤ c.W * c.P) :
-    ∃ Z', SWk c (tryPut c s) Z' ex k ∧ (∀ a ∈ s.mainSnaps, a ∈ (tryPut c s).mainSnaps) := by
+    ∃ Z', SWk c (tryPut c s) Z' ex k ∧ (∀ a ∈ s.mainSnaps, a ∈ (tryPut c s).mainSnaps) ∧
+      (∀ e ∈ (tryPut c s).info, e ∈ s.info ∨ e.res = none) ∧ (∀ e ∈ s.info, e ∈ (tryPut c s).info) := by
   unfold tryPut
   simp only [hit, Bool.not_true, Bool.false_and, Bool.false_eq_true, if_false]
   split
-  · exact ⟨Z, SWk_of_eq c s _ Z ex k h rfl rfl rfl rfl rfl, fun a ha => ha⟩
-  · refine ⟨_, SWk_dispatch c s Z ex k _ _ hit h hfree, fun a ha => ?_⟩
-    show a ∈ (if (flags c (s.samplerPos + 1) s.numYielded).1 then s.mainSnaps ++ [(s.sendIdx, s.samplerPos + 1)]
-      else s.mainSnaps)
-    split
-    · exact List.mem_append_left _ ha
-    · exact ha
+  · exact ⟨Z, SWk_of_eq c s _ Z ex k h rfl rfl rfl rfl rfl, fun a ha => ha, fun e he => Or.inl he, fun e he => he⟩
+  · refine ⟨_, SWk_dispatch c s Z ex k _ _ hit h hfree, fun a ha => ?_, fun e he => ?_, fun e he => ?_⟩
+    · show a ∈ (if (flags c (s.samplerPos + 1) s.numYielded).1 then s.mainSnaps ++ [(s.sendIdx, s.samplerPos + 1)]
+        else s.mainSnaps)
+      split
+      · exact List.mem_append_left _ ha
+      · exact ha
+    · have he' : e ∈ s.info ++ [⟨s.sendIdx, _, none⟩] := he
+      rcases List.mem_append.mp he' with h1 | h1
+      · exact Or.inl h1
+      · simp at h1; subst h1; exact Or.inr rfl
+    · show e ∈ s.info ++ [⟨s.sendIdx, _, none⟩]
+      exact List.mem_append_left _ he
 
 end TDV.MPU
